@@ -173,6 +173,24 @@ func (c *Ctx) globalWrites(pkgs ...string) (writes []globalWrite, globals []*ssa
 								writes = append(writes, globalWrite{f, x, g, n + " on " + org(args[0])})
 							}
 						}
+						// a module function that writes through the memory of an argument (A4 effects analysis), handed
+						// memory that hangs off a package-level variable: e.g. a method with pointer receiver called on
+						// a package-level sentinel
+						if callee := x.Common().StaticCallee(); callee != nil && callee.Blocks != nil && callee.Pkg != nil && strings.HasPrefix(callee.Pkg.Pkg.Path(), modPath) && len(args) <= len(callee.Params) {
+							for i, av := range args {
+								g := fromGlobal(av)
+								if g == nil || !hasRefs(av.Type()) {
+									continue
+								}
+								ctx := make([]pc, len(callee.Params))
+								ctx[i] = pc{isRefType(av.Type()), true}
+								sum := newA4(c.Prog).analyse(callee, ctx, nil)
+								if kept, _ := a4FilterReviewed(sum.writes); len(kept) > 0 {
+									w := kept[0]
+									writes = append(writes, globalWrite{f, x, g, fmt.Sprintf("%s writes through %s (%s at %s)", n, org(av), w.path, c.pos(w.instr.Pos()))})
+								}
+							}
+						}
 					}
 				}
 			}
